@@ -69,25 +69,19 @@ Theorem C15_filters_selectors_cover :
 Proof. exact selector_cover_in. Qed.
 Print Assumptions C15_filters_selectors_cover.
 
-(* exactness holds when selectors of a are targeted, or none of a's is excluded ... *)
-Theorem C15_filters_selectors_partial :
+(* selectors, exactly Foundry's rule, for ALL filter sets and methods: if selectors of a are targeted,
+   exactly those (exclusion is ignored); otherwise the state-changing functions that are not excluded
+   and, on the test contract, not reserved entry points *)
+Theorem C15_filters_selectors :
   forall f test a m,
     NoDup (map fst (f_tsel f)) -> NoDup (map fst (f_esel f)) ->
-    (has_sel_target f a \/ forall s, ~ sel_excluded f a s) ->
     (selector_selected (f_tsel f) (f_esel f) a test m = true <->
-     spec_selector f test a (m_sig m) (m_sel m) (m_mut m)).
+     ((has_sel_target f a -> sel_targeted f a (m_sel m)) /\
+      (~ has_sel_target f a ->
+         m_mut m <> 0 /\ m_mut m <> 1 /\ ~ sel_excluded f a (m_sel m) /\
+         (a = test -> reserved_sig (m_sig m) = false)))).
 Proof. exact selector_exact. Qed.
-Print Assumptions C15_filters_selectors_partial.
-
-(* ... and fails otherwise: with excludeSelectors for a contract, its view/pure functions
-   (and, on the test contract, setUp()/test_*/invariant_* ...) become targets *)
-Theorem C15_filters_selectors_refuted :
-  exists f test a m,
-    NoDup (map fst (f_tsel f)) /\ NoDup (map fst (f_esel f)) /\
-    selector_selected (f_tsel f) (f_esel f) a test m = true /\
-    ~ spec_selector f test a (m_sig m) (m_sel m) (m_mut m).
-Proof. exact selector_exact_refuted. Qed.
-Print Assumptions C15_filters_selectors_refuted.
+Print Assumptions C15_filters_selectors.
 
 (* the (account, function) pairs run from a frontier state (_compute_frontier's loop over
    resolve_target_contracts and run_target_contract's loop over resolve_target_selectors, both call
@@ -148,7 +142,6 @@ Theorem C15_cover :
     (forall p a q b cs, sid a = sid b -> gamma (refresh q b) cs -> gamma (refresh p a) cs) ->
     (forall ss cs tx cs', gamma ss cs -> adm cs tx -> cstep cs tx = Some cs' ->
         exists t s', In t (targets ss) /\ In (OOk s') (sstep ss t) /\ gamma (refresh ss s') cs') ->
-    (forall q b cs, sid b = sid setup -> gamma (refresh q b) cs -> gamma setup cs) ->
     forall d cs0 txs cs,
       gamma setup cs0 -> creach cstep adm cs0 txs cs -> (length txs <= d)%nat ->
       exists j ss, (j <= length txs)%nat /\
@@ -168,7 +161,6 @@ Theorem C15_pass_sound :
     (forall p a q b cs, sid a = sid b -> gamma (refresh q b) cs -> gamma (refresh p a) cs) ->
     (forall ss cs tx cs', gamma ss cs -> adm cs tx -> cstep cs tx = Some cs' ->
         exists t s', In t (targets ss) /\ In (OOk s') (sstep ss t) /\ gamma (refresh ss s') cs') ->
-    (forall q b cs, sid b = sid setup -> gamma (refresh q b) cs -> gamma setup cs) ->
     forall (inv_c : CS -> bool) (inv_ok : SS -> bool),
     (forall ss cs, gamma ss cs -> inv_c cs = false -> inv_ok ss = false) ->
     forall d, verdict_pass SS Tgt targets sstep sid refresh setup inv_ok d = true ->
@@ -192,7 +184,8 @@ Theorem C15_state_id_identical :
       snapshot_state H64 (storage_digest H128) true a = Some i ->
       snapshot_state H64 (storage_digest H128) true b = Some i ->
       x_balance a = x_balance b /\ x_code a = x_code b /\ storage_terms a = storage_terms b /\
-      (forall c, constraint_of a c <-> constraint_of b c).
+      (forall c, constraint_of a c <-> constraint_of b c) /\
+      (forall fld, fld <> BTimestamp -> x_block a fld = x_block b fld).
 Proof. exact (@state_id_identical). Qed.
 Print Assumptions C15_state_id_identical.
 
@@ -200,7 +193,8 @@ Print Assumptions C15_state_id_identical.
 Theorem C15_state_id_meaning :
   forall (V val : Type) (ev : V -> Z -> val) (holds : V -> Z -> Prop) (a b : xstate),
     (x_balance a = x_balance b /\ x_code a = x_code b /\ storage_terms a = storage_terms b /\
-     (forall c, constraint_of a c <-> constraint_of b c)) ->
+     (forall c, constraint_of a c <-> constraint_of b c) /\
+     (forall fld, fld <> BTimestamp -> x_block a fld = x_block b fld)) ->
     forall w, represents V val ev holds a w <-> represents V val ev holds b w.
 Proof. exact same_identity_represents. Qed.
 Print Assumptions C15_state_id_meaning.
@@ -211,6 +205,7 @@ Theorem C15_state_id_complete :
     x_balance a = x_balance b -> x_code a = x_code b -> x_storage a = x_storage b ->
     x_conds a = x_conds b -> x_sliced a = Some sa -> x_sliced b = Some sb ->
     (forall i, In i sa <-> In i sb) ->
+    (forall fld, fld <> BTimestamp -> x_block a fld = x_block b fld) ->
     snapshot_state H64 (storage_digest H128) true a = snapshot_state H64 (storage_digest H128) true b /\
     snapshot_state H64 (storage_digest H128) true a <> None.
 Proof. exact (@state_id_complete). Qed.
@@ -242,15 +237,11 @@ Theorem C15_cover_snapshot :
     (forall p a q b cs,
         (x_balance (view a) = x_balance (view b) /\ x_code (view a) = x_code (view b) /\
          storage_terms (view a) = storage_terms (view b) /\
-         (forall c, constraint_of (view a) c <-> constraint_of (view b) c)) ->
+         (forall c, constraint_of (view a) c <-> constraint_of (view b) c) /\
+         (forall fld, fld <> BTimestamp -> x_block (view a) fld = x_block (view b) fld)) ->
         gamma (refresh q b) cs -> gamma (refresh p a) cs) ->
     (forall ss cs tx cs', gamma ss cs -> adm cs tx -> cstep cs tx = Some cs' ->
         exists t s', In t (targets ss) /\ In (OOk s') (sstep ss t) /\ gamma (refresh ss s') cs') ->
-    (forall q b cs,
-        (x_balance (view b) = x_balance (view setup) /\ x_code (view b) = x_code (view setup) /\
-         storage_terms (view b) = storage_terms (view setup) /\
-         (forall c, constraint_of (view b) c <-> constraint_of (view setup) c)) ->
-        gamma (refresh q b) cs -> gamma setup cs) ->
     forall d cs0 txs cs,
       gamma setup cs0 -> creach cstep adm cs0 txs cs -> (length txs <= d)%nat ->
       exists j ss, (j <= length txs)%nat /\
@@ -267,10 +258,10 @@ Example C15_state_id_nonvacuous :
   (forall x y : list (item (list Z)), (fun v => v) x = (fun v => v) y -> x = y) /\
   uniform_keys 3 BranchInst.hi /\
   snapshot_state (fun v => v) (storage_digest (fun v => v)) true BranchInst.hi =
-    Some [[W 1]; [W 10; W 77]; [W 10; Dg [0; 0; 0; 100]]; [W 200]] /\
+    Some [[W 1]; [W 10; W 77]; [W 10; Dg [0; 0; 0; 100]]; [W 200; W 0; W 0; W 0; W 0; W 0; W 0]] /\
   snapshot_state (fun v => v) (storage_digest (fun v => v)) true BranchInst.lo =
-    Some [[W 1]; [W 10; W 77]; [W 10; Dg [0; 0; 0; 100]]; [W 201]] /\
-  snapshot_state (D64 := list (item (list Z))) (fun v => v) (storage_digest (fun v => v)) true (mkX 1 [] [] [] None) = None.
+    Some [[W 1]; [W 10; W 77]; [W 10; Dg [0; 0; 0; 100]]; [W 201; W 0; W 0; W 0; W 0; W 0; W 0]] /\
+  snapshot_state (D64 := list (item (list Z))) (fun v => v) (storage_digest (fun v => v)) true (mkX 1 [] [] [] None (fun _ => 0)) = None.
 Proof.
   split; [intros x y E; exact E |]. split; [| repeat split; reflexivity].
   intros addr st k v I1 I2. destruct I1 as [I1 | []]. injection I1 as _ I1. subst st.
@@ -279,69 +270,47 @@ Qed.
 
 (* ------------------------------------------------------------------ the slice: which conditions are constraints on the state *)
 
-(* Path._get_related, the dependency update of Path.append and Path.slice are regenerated from
+(* The dependency update of Path.append and Path.slice (a worklist closure) are regenerated from
    sevm.py.  For every path (any number of conditions, any variable sets) and every set of state
-   variables, the slice is EXACTLY the backward dependency closure of the state variables: the
-   conditions that mention a state variable, and the EARLIER conditions sharing a variable with a
-   condition of the slice. *)
-Theorem C15_slice_exact :
-  forall (vs : list (list Z)) (S : list Z) (i : nat),
-    In i (p_slice (p_build vs) S) <-> constrains_back vs S i.
-Proof. exact slice_exact. Qed.
-Print Assumptions C15_slice_exact.
+   variables, the loop ends within slice_fuel iterations and the slice is EXACTLY the set of conditions
+   that constrain the state (Spec/PathSliceSpec.v constrains: they mention a state variable, or share a
+   variable with a condition that constrains the state -- in either order of appearance). *)
+Theorem C15_slice_closure :
+  forall (vs : list (list Z)) (S : list Z),
+    exists r, p_slice (p_build vs) vs S (slice_fuel vs S) = Some r /\ forall i, In i r <-> constrains vs S i.
+Proof. exact slice_closure_total. Qed.
+Print Assumptions C15_slice_closure.
 
-Theorem C15_slice_direct :
-  forall (vs : list (list Z)) (S : list Z) (i : nat),
-    (i < length vs)%nat -> (exists v, In v (nth i vs []) /\ In v S) -> In i (p_slice (p_build vs) S).
-Proof. exact slice_direct. Qed.
-Print Assumptions C15_slice_direct.
+(* ... and whatever fuel is given, a result is that closure *)
+Theorem C15_slice_closure_any_fuel :
+  forall (vs : list (list Z)) (S : list Z) (fuel : nat) (r : list nat),
+    p_slice (p_build vs) vs S fuel = Some r -> forall i, In i r <-> constrains vs S i.
+Proof. exact slice_closure. Qed.
+Print Assumptions C15_slice_closure_any_fuel.
 
-Theorem C15_slice_backward :
-  forall (vs : list (list Z)) (S : list Z) (i j : nat),
-    In j (p_slice (p_build vs) S) -> (i < j)%nat ->
-    (exists v, In v (nth i vs []) /\ In v (nth j vs [])) -> In i (p_slice (p_build vs) S).
-Proof. exact slice_backward. Qed.
-Print Assumptions C15_slice_backward.
+(* set(x) payable { s = x; require(x == msg.value); if (msg.value > 9) {} else {} }: condition 1
+   (`msg.value > 9`) constrains the stored x through the EARLIER condition 0 (`x == msg.value`): both are sliced *)
+Example C15_slice_later_condition :
+  p_slice (p_build ForwardInst.vs) ForwardInst.vs ForwardInst.S 10 = Some [1%nat; 0%nat] /\
+  constrains ForwardInst.vs ForwardInst.S 1.
+Proof. exact slice_forward_example. Qed.
 
-(* The constraints on the state (Spec/PathSliceSpec.v constrains: dependency in EITHER order) are
-   not all in the slice.  set(x) payable { s = x; require(x == msg.value); if (msg.value > 9) {} else {} }:
-   condition 1 (`msg.value > 9`) constrains the stored x through condition 0 (`x == msg.value`), the
-   slice is {0}.  The two end states then have the same state id (C15_state_id_complete) although
-   they stand for different concrete states: one is dropped (reproduced end to end: known finding). *)
-Theorem C15_slice_closure_refuted :
-  constrains ForwardInst.vs ForwardInst.S 1 /\
-  p_slice (p_build ForwardInst.vs) ForwardInst.S = [O] /\
-  ~ In 1%nat (p_slice (p_build ForwardInst.vs) ForwardInst.S).
-Proof. exact slice_forward_refuted. Qed.
-Print Assumptions C15_slice_closure_refuted.
+(* ------------------------------------------------------------------ the setUp state; probes and the verdict *)
 
-(* ------------------------------------------------------------------ the merge hypothesis is necessary *)
-
-(* F9: the state id ignores block fields.  Target: r() = vm.roll(5); n() = require(block.number == 5); x = 1.
-   The engine is per-transaction complete, yet r(); n() -- which breaks `x != 1` -- is not
-   represented at depth 2: only the setUp state is evaluated and the verdict is PASS. *)
-Theorem C15_merge_identical_refuted :
-  (forall ss cs tx cs', ss = cs -> True -> RollInst.cstep cs tx = Some cs' ->
-     exists t s', In t (RollInst.targets ss) /\ In (OOk s') (RollInst.sstep ss t) /\ RollInst.refresh ss s' = cs') /\
-  creach RollInst.cstep (fun _ _ => True) RollInst.setup [RollInst.Roll; RollInst.Need] (1, 5) /\
-  RollInst.inv_ok (1, 5) = false /\
-  evaluated RollInst.St RollInst.tx RollInst.targets RollInst.sstep RollInst.sid RollInst.refresh RollInst.setup 2 = [RollInst.setup] /\
-  verdict_pass RollInst.St RollInst.tx RollInst.targets RollInst.sstep RollInst.sid RollInst.refresh RollInst.setup RollInst.inv_ok 2 = true.
-Proof. exact merge_identical_refuted. Qed.
-Print Assumptions C15_merge_identical_refuted.
-
-(* A post-state whose id equals the setUp state's is dropped although its timestamp may
-   advance and the setUp state's cannot.  Target: noop(); late() = require(block.timestamp >= 100); x = 1.
-   noop() at t=1, then late() at t=100 is admissible and reaches x = 1; no evaluated state stands for it. *)
-Theorem C15_merge_setup_refuted :
+(* A post-state with the id of the setUp state is explored (the setUp state is not registered as
+   visited: it keeps the concrete setUp timestamp, the post-state gets a fresh one).
+   Target: noop(); late() = require(block.timestamp >= 100); x = 1.  noop() at t=1, then late() at t=100
+   reaches x = 1, and an evaluated state stands for it. *)
+Theorem C15_setup_state_not_merged :
   (forall ss cs tx cs', TsInst.gamma ss cs -> TsInst.adm cs tx -> TsInst.cstep cs tx = Some cs' ->
      exists t s', In t (TsInst.targets ss) /\ In (OOk s') (TsInst.sstep ss t) /\ TsInst.gamma (TsInst.refresh ss s') cs') /\
   TsInst.gamma TsInst.setup (0, 1) /\
   creach TsInst.cstep TsInst.adm (0, 1) [TsInst.Noop 100; TsInst.Late 100] (1, 100) /\
-  evaluated TsInst.sst TsInst.tgt TsInst.targets TsInst.sstep TsInst.sid TsInst.refresh TsInst.setup 2 = [TsInst.setup] /\
-  ~ TsInst.gamma TsInst.setup (1, 100).
-Proof. exact merge_setup_refuted. Qed.
-Print Assumptions C15_merge_setup_refuted.
+  evaluated TsInst.sst TsInst.tgt TsInst.targets TsInst.sstep TsInst.sid TsInst.refresh TsInst.setup 2 =
+    [TsInst.setup; TsInst.mkS 0 1 false; TsInst.mkS 1 100 false] /\
+  TsInst.gamma (TsInst.mkS 1 100 false) (1, 100).
+Proof. exact setup_state_not_merged. Qed.
+Print Assumptions C15_setup_state_not_merged.
 
 (* F12: an assertion failure inside a target (inc(); bad() with x == 1) is only recorded as a
    probe; the verdict of the invariant test does not depend on it *)
@@ -391,15 +360,13 @@ Example C15_cover_nonvacuous :
   (forall p a q b cs, CounterInst.sid a = CounterInst.sid b -> CounterInst.refresh q b = cs -> CounterInst.refresh p a = cs) /\
   (forall ss cs tx cs', ss = cs -> True -> CounterInst.cstep cs tx = Some cs' ->
      exists t s', In t (CounterInst.targets ss) /\ In (OOk s') (CounterInst.sstep ss t) /\ CounterInst.refresh ss s' = cs') /\
-  (forall q b cs, CounterInst.sid b = CounterInst.sid CounterInst.setup -> CounterInst.refresh q b = cs -> CounterInst.setup = cs) /\
   frontiers Z unit CounterInst.targets CounterInst.sstep CounterInst.sid CounterInst.refresh CounterInst.setup 2 = [[0]; [1]; [2]] /\
   creach CounterInst.cstep (fun _ _ => True) 0 [tt; tt] 2.
 Proof.
-  split; [|split; [|split; [|split]]].
+  split; [|split; [|split]].
   - unfold CounterInst.sid, CounterInst.refresh. intros; congruence.
   - intros ss cs tx cs' Heq _ Hs. subst. exists tt, cs'. split; [left; reflexivity|].
     unfold CounterInst.cstep in Hs. inversion Hs. split; [left; reflexivity | reflexivity].
-  - unfold CounterInst.sid, CounterInst.refresh. intros; congruence.
   - reflexivity.
   - eapply creach_cons; [exact I | reflexivity |]. eapply creach_cons; [exact I | reflexivity | constructor].
 Qed.
